@@ -433,11 +433,11 @@ struct Mon {
         Obj& o = objs[oi]; const State& R = *o.real; MState& m = o.m;
         const int ns = (int)m.subs.size();
         CK(R.getNumSubsystems() == ns, "num-subsystems", "real " + std::to_string(R.getNumSubsystems()));
-        CK((int)R.getSystemStage() == m.sys, "system-stage", std::string("real ") + SN[(int)R.getSystemStage()] + ", model " + SN[m.sys]);
+        CK((int)R.getSystemStage() == m.sys, (int)R.getSystemStage() < m.sys ? "stage-lower-than-documented" : "stage-not-invalidated", std::string("system stage real ") + SN[(int)R.getSystemStage()] + ", model " + SN[m.sys]);
         for (int si = 0; si < ns; ++si) {
             const SubsystemIndex sx(si); MSub& b = m.subs[si];
             const int rs = (int)R.getSubsystemStage(sx);
-            CK(rs == b.stage, "subsystem-stage", "sub" + std::to_string(si) + " real " + SN[rs] + ", model " + SN[b.stage]);
+            CK(rs == b.stage, rs < b.stage ? "stage-lower-than-documented" : "stage-not-invalidated", "sub" + std::to_string(si) + " real " + SN[rs] + ", model " + SN[b.stage]);
             // stage versions: change / no-change only
             const PerSubsystemInfo& psi = R.getPerSubsystemInfo(sx);
             for (int g = STopology; g <= SReport; ++g) {
@@ -533,11 +533,11 @@ struct Mon {
                 for (int i = 0; i < R.getNU(); ++i) cu[i] = R.getU()[i];
                 for (int i = 0; i < R.getNZ(); ++i) cz[i] = R.getZ()[i];
                 if (m.haveSeenY) {
-                    CK(cq == m.seenQ || rq != m.realQv, "q-changed-with-same-version", "");
-                    CK(cu == m.seenU || ru != m.realUv, "u-changed-with-same-version", "");
-                    CK(cz == m.seenZ || rz != m.realZv, "z-changed-with-same-version", "");
+                    CK(cq == m.seenQ || rq != m.seenQv, "q-changed-with-same-version", "");
+                    CK(cu == m.seenU || ru != m.seenUv, "u-changed-with-same-version", "");
+                    CK(cz == m.seenZ || rz != m.seenZv, "z-changed-with-same-version", "");
                 }
-                m.seenQ = cq; m.seenU = cu; m.seenZ = cz; m.haveSeenY = true;
+                m.seenQ = cq; m.seenU = cu; m.seenZ = cz; m.haveSeenY = true; m.seenQv = rq; m.seenUv = ru; m.seenZv = rz;
             }
             m.realQv = rq; m.realUv = ru; m.realZv = rz; m.qvSeen = m.qv; m.uvSeen = m.uv; m.zvSeen = m.zv;
         }
@@ -580,7 +580,13 @@ struct Mon {
 
     std::vector<double> randVals(int n, bool positive = false) { std::vector<double> v(n); for (auto& x : v) x = positive ? r.uni(0.1, 5.0) : r.sym(10.0); return v; }
     long newTok() { return ++tokCounter; }
-    int pickImpl() { std::vector<int> v; for (int i = 0; i < 3; ++i) if (objs[i].live && objs[i].m.impl && !objs[i].m.subs.empty()) v.push_back(i); return v.empty() ? -1 : v[r.next() % v.size()]; }
+    int focus = 0, allocBias = 0;   // focus: object most recently created/assigned (keeps working on a fresh copy)
+    int pickImpl() {
+        std::vector<int> v; for (int i = 0; i < 3; ++i) if (objs[i].live && objs[i].m.impl && !objs[i].m.subs.empty()) v.push_back(i);
+        if (v.empty()) return -1;
+        if (objs[focus].live && objs[focus].m.impl && !objs[focus].m.subs.empty() && r.coin(0.55)) return focus;
+        return v[r.next() % v.size()];
+    }
     int freeSlot() { for (int i = 0; i < 3; ++i) if (!objs[i].live) return i; return -1; }
 
     std::vector<int> earlyMarks(const MSub& b, int g) {
@@ -596,10 +602,10 @@ struct Mon {
             Op a; a.kind = K_AdvSys; a.obj = oi; a.g = s; pending.push_back(a);
         }
     }
-    bool genAdvance(Op& op, const MState& m) {
+    bool genAdvance(Op& op, const MState& m, bool plans) {
         const int ns = (int)m.subs.size();
         const double x = r.uni();
-        if (x < 0.30 && m.sys < SReport) {   // realize the whole State to a later stage
+        if (plans && x < 0.30 && m.sys < SReport) {   // realize the whole State to a later stage
             int g = r.integer(m.sys + 1, SReport);
             if (r.coin(0.5)) g = std::min(g, m.sys + 2);
             planRealize(op.obj, m, g);
@@ -793,28 +799,34 @@ struct Mon {
             }
             op.obj = oi;
             const MState& m = objs[oi].m;
+            if (allocBias > 0) {   // build-up phase: mostly allocations, interleaved with single advances
+                --allocBias;
+                if (r.coin(0.72)) { if (genAlloc(op, m)) return true; }
+                else if (genAdvance(op, m, false)) return true;
+                continue;
+            }
             const double x = r.uni();
-            if (x < 0.24) { if (genAdvance(op, m)) return true; }
-            else if (x < 0.44) { if (genAlloc(op, m)) return true; }
-            else if (x < 0.62) { if (genVarWrite(op, m)) return true; }
-            else if (x < 0.76) { if (genCacheOp(op, m)) return true; }
-            else if (x < 0.83) {
+            if (x < 0.17) { if (genAdvance(op, m, true)) return true; }
+            else if (x < 0.30) { if (genAlloc(op, m)) return true; }
+            else if (x < 0.50) { if (genVarWrite(op, m)) return true; }
+            else if (x < 0.74) { if (genCacheOp(op, m)) return true; }
+            else if (x < 0.81) {
                 if (r.coin(0.7)) { op.kind = K_InvAll; op.g = r.coin() ? r.integer(STime, SReport) : r.integer(STopology, SReport); }
                 else { op.kind = K_InvCache; op.g = r.integer(SInstance, SReport); }
                 return true;
             }
-            else if (x < 0.91) { if (genObjectOp(op)) return true; }
-            else if (x < 0.94) { if (m.haveSnap && r.coin(0.6)) op.kind = K_Diff; else op.kind = K_Snap; return true; }
-            else if (x < 0.975) { if (genIllegal(op, m)) return true; }
+            else if (x < 0.90) { if (genObjectOp(op)) { if (op.obj2 >= 0 && op.kind != K_IsConsistent) focus = op.obj2; return true; } }
+            else if (x < 0.93) { if (m.haveSnap && r.coin(0.6)) op.kind = K_Diff; else op.kind = K_Snap; return true; }
+            else if (x < 0.965) { if (genIllegal(op, m)) return true; }
             else {
                 const double y = r.uni();
                 if (y < 0.5) { op.kind = K_ToString; return true; }
-                if (y < 0.8) {
+                if (y < 0.88) {
                     std::vector<int> o; for (int i = 0; i < 3; ++i) if (i != oi && objs[i].live && objs[i].m.impl && objs[i].m.sys >= SInstance) o.push_back(i);
                     if (m.sys >= SInstance && !o.empty()) { op.kind = K_IsConsistent; op.obj2 = o[r.next() % o.size()]; return true; }
                     continue;
                 }
-                op.kind = K_Clear; op.n = r.integer(1, 4); op.mark = r.coin(); return true;
+                op.kind = K_Clear; op.n = r.integer(1, 4); op.mark = r.coin(); allocBias = r.integer(0, 8); return true;
             }
         }
         return false;
@@ -826,6 +838,7 @@ struct Mon {
         objs[0].real.reset(new State()); objs[0].live = true; objs[0].m = MState();
         { Op op; op.kind = K_Clear; op.obj = 0; op.n = r.integer(1, 4); op.mark = r.coin(); step(op); }
         const int len = r.integer(10, (int)c.args.getInt("maxlen", 200));
+        allocBias = r.integer(0, 14);
         for (int i = 0; i < len && !dead; ++i) { Op op; if (!gen(op)) break; step(op); }
         if (c.args.verbose) for (auto& h : hist) fprintf(stderr, "  %s\n", h.c_str());
         c.setPhase("destroying the State objects");
